@@ -4,8 +4,16 @@ import "github.com/pyroscope-io/pyroscope/pkg/structs/cappedarr"
 
 func (t *Tree) minValue(maxNodes int) uint64 {
 	c := cappedarr.New(maxNodes)
+	visited := 0
 	t.iterateWithCum(func(cum uint64) bool {
+		visited++
 		return c.Push(cum)
 	})
+	// when the whole tree fits into the budget nothing has to be pruned;
+	// the smallest total must not be used as a threshold, otherwise nodes
+	// whose total ties with it lose their children
+	if visited <= maxNodes {
+		return 0
+	}
 	return c.MinValue()
 }
